@@ -8,7 +8,7 @@ CLAIMED = {
   'C12': ('pivot invariant under row permutation (distinct means), monotone date relabelling and scaling (C12_pivot_perm/_dates/_scale, with a proved counterexample when means tie); both searches scale-equivariant (C12_evaluated_scale, C12_exhaustive_scale, C12_greedy_scale); renaming = injective relabelling of index sets (C12_rename); paired real runs over five transformations x both searches',
           'Lean proof on the data and search models + metamorphic paired real runs',
           'int-vs-str ID dtype handling and exactness of 2^k scaling in floats are carried by the paired runs (partial)', '7/C12'),
-  'C19': ('fit result: screened data = input rows minus rows of reported geos and dates, analysis = per-date totals of the screened data, reports are what the detectors said, totals invariant under permutation / other groups / splitting a geo, perm-invariance of the whole fit given perm-invariant detectors (9 theorems); correspondence row by row with the real reports fed to the model',
+  'C19': ('fit result: screened data = input rows minus rows of reported geos and dates, analysis = per-date totals of the screened data, reports are what the detectors said, totals invariant under permutation / other groups / splitting a geo, perm-invariance of the whole fit given perm-invariant detectors (9 theorems); the outlier-date loop terminates (loop_terminates, about the loop shape regenerated from source, T11); correspondence row by row with the real reports fed to the model; every real fit under a 30 s watchdog',
           'Lean proof with uninterpreted detectors + differential frames + paired runs on shuffled rows',
           'detectors uninterpreted; object-dtype group column (pinned environment cannot fit int-dtype group columns)', '7/C19'),
   'C10': ('state-machine model of one TBRMatchedMarkets object (caller parameters, data.geo_index, stored results): for every call history every non-retrieval call answers as on a fresh object, retrieval answers with the last stored search, parameters unchanged (C10_history_free, C10_params_unchanged, C10_results_idempotent); negative witnesses for the two repaired defects; history correspondence with fresh-object oracle and deep snapshots',
